@@ -121,6 +121,42 @@ func decideRTNoZone(c rtCase) (*rp.Fail, string, bool) {
 				return
 			}
 		}
+		// the field types encode themselves (MarshalUT0311L0x): the bytes a field hands out are the caller's - writing into them
+		// changes neither the next encoding of the same value nor that of any other value (the zero values included)
+		type fieldMarshaler interface{ MarshalUT0311L0x() ([]byte, error) }
+		for i, f := range ls {
+			fm, ok := f.Interface().(fieldMarshaler)
+			if !ok {
+				continue
+			}
+			var b1, b2, z1, z2 []byte
+			zero, _ := reflect.Zero(f.Type()).Interface().(fieldMarshaler)
+			if p := try(func() {
+				b1, _ = fm.MarshalUT0311L0x()
+				if zero != nil {
+					z1, _ = zero.MarshalUT0311L0x()
+				}
+			}); p != nil {
+				continue // (C04's subject)
+			}
+			keep, keepZ := append([]byte(nil), b1...), append([]byte(nil), z1...)
+			for j := range b1 {
+				b1[j] = 0xee
+			}
+			for j := range z1 {
+				z1[j] = 0x99
+			}
+			try(func() {
+				b2, _ = fm.MarshalUT0311L0x()
+				if zero != nil {
+					z2, _ = zero.MarshalUT0311L0x()
+				}
+			})
+			if !bytes.Equal(b2, keep) || !bytes.Equal(z2, keepZ) {
+				fail = rp.Failf("types.MarshalUT0311L0x/result-shared-between-calls", "%s, field %d (%v): after the caller wrote into the bytes that MarshalUT0311L0x returned, the same value encodes as %x (was %x) and the zero value as %x (was %x)", typeName, i, f.Type(), b2, keep, z2, keepZ)
+				return
+			}
+		}
 		var enc []byte
 		var err error
 		if p := try(func() { enc, err = codec.Marshal(proto) }); p != nil {
@@ -235,6 +271,25 @@ func decideRTNoZone(c rtCase) (*rp.Fail, string, bool) {
 			}
 			fail = rp.Failf("codec/"+site, "%s in zone %s: decode(encode(v)) != v: %s (encoding %x)", typeName, c.Zone, d, enc)
 			return
+		}
+		// a message that is REJECTED half-way through a field (a non-decimal digit in the second byte of a date / time field)
+		// decoded right before: whatever the decoders keep while they work, the next well-formed message decodes as always
+		for _, fl := range layout.Fields {
+			if (fl.Kind == spec.Date || fl.Kind == spec.DateTime || fl.Kind == spec.HHmm || fl.Kind == spec.SysDate || fl.Kind == spec.SysTime) && fl.Off+1 < 64 {
+				bad := append([]byte(nil), enc...)
+				bad[fl.Off+1] = 0x5a
+				try(func() { codec.Unmarshal(bad, reflect.New(v.Type()).Interface()) })
+				again, err := decode(append([]byte(nil), enc...))
+				if err != nil {
+					fail = rp.Failf("codec.Unmarshal/depends-on-an-earlier-rejected-message", "%s: %x is rejected (%v) when it is decoded right after a message with a non-decimal digit in field %s", typeName, enc, err, fl.Name)
+					return
+				}
+				if d := fv.FirstDiff(before, fv.CanonAll(again)); d != "" {
+					fail = rp.Failf("codec.Unmarshal/depends-on-an-earlier-rejected-message", "%s in zone %s: %x decodes differently right after a message that was rejected for a non-decimal digit in field %s: %s", typeName, c.Zone, enc, fl.Name, d)
+					return
+				}
+				break
+			}
 		}
 		// a decoded value belongs to the caller: overwriting everything that is reachable from it (the targets of pointer
 		// fields, the bytes of slices) must not change what the next decode of the same bytes returns
